@@ -166,9 +166,9 @@ Hypothesis H_mark_status : forall s k o g st,
   I s -> find_order k (orders s) = Some (o, g) -> is_term (o_status o) = false -> is_term st = false ->
   I (mark_status s k o g st).
 Hypothesis H_esc_in : forall s app pair from d x s',
-  I s -> is_escrow from = false -> esc_in s app pair from d x = Ok s' -> I s'.
+  I s -> is_outside from = true -> esc_in s app pair from d x = Ok s' -> I s'.
 Hypothesis H_esc_out : forall s app pair to d x s',
-  I s -> is_escrow to = false -> esc_out s app pair to d x = Ok s' -> I s'.
+  I s -> is_outside to = true -> esc_out s app pair to d x = Ok s' -> I s'.
 Hypothesis H_disable_depleted : forall s pr, I s -> I (disable_depleted s pr).
 Hypothesis H_set_pair_after : forall s pr env,
   I s -> find_pair (p_app pr) (p_id pr) (pairs s) = Some pr -> I (set_pair_after s pr env).
